@@ -163,6 +163,23 @@ def run(ctx):
         except Exception:
             continue
         one(ctx, toks, reqs, reals, "walk-" + kind, abstract)
+    # the same local name in several namespaces within one document (name and namespace travel together in every event)
+    shared = ["title", "a", "style", "script", "font", "image", "desc", "svg", "math", "mi", "p", "br", "table", "td", "html", "body"]
+    for i in range(ctx.scale(200, 3000)):
+        parts = []
+        for _ in range(ctx.rng.randint(2, 5)):
+            n = ctx.rng.choice(shared)
+            wrap = ctx.rng.choice(["%s", "<svg>%s</svg>", "<math>%s</math>", "<svg><foreignObject>%s</foreignObject></svg>", "<math><mi>%s</mi></math>"])
+            parts.append(wrap % ("<%s id=i%d>t</%s>" % (n, len(parts), n)))
+        text = "<!DOCTYPE html><title>Doc</title>" + "".join(parts)
+        kind = "dom" if i % 2 else "etree"
+        try:
+            tree = gen.parse_real(text, tb=kind, full=True)
+            toks = gen.walk_real(tree, kind)
+            abstract = trees.from_dom(tree) if kind == "dom" else trees.from_etree(tree)
+        except Exception:
+            continue
+        one(ctx, toks, reqs, reals, "shared-local-names-" + kind, abstract)
     names = ["a", "br", "svg", "p"]
     for i in range(ctx.scale(800, 20000)):
         toks = gen.token_stream(ctx.rng, names, maxlen=8)
